@@ -4,9 +4,11 @@ JSON-lines driver for E5 (Channels model, property C05).  Run with
 One JSON object per input line, one JSON object per output line.
 
 wire formats
-  value    : int | true/false | null | "str" | [scalars] | {"d": [[key, int], …]}
+  value    : int | true/false | null | "str" | {"f": "<JSON number token>"} | [scalars] | {"d": [[key, int], …]}
+             | {"yn": {"word": str, "negWord": str|null}}
   namespace: {"n": [[name, namespace-or-value], …]}
-  parser   : {"prefix": str|null, "decls": [{"key": [seg, …], "raw": bool}, …]}   (clash table = Jap.Gen.clashNames)
+  parser   : {"prefix": str|null, "decls": [{"key": [seg, …], "kind": "json" | "raw" | {"yesno": "bare"|"opt"|"one"}
+             | {"nlist": ["n1"|"n2"|"plus"|"star", elemRaw]}}, …]}   (clash table = Jap.Gen.clashNames)
   settings : [[[seg, …], value], …]
 -/
 import Lean.Data.Json
@@ -20,6 +22,13 @@ def scalarOfJson : Json → Option Scalar
   | .bool b => some (.bool b)
   | .num n => if n.exponent = 0 then some (.int n.mantissa) else none
   | .str s => some (.str s)
+  | .obj o =>
+    match (Json.obj o).getObjVal? "f" with
+    | .ok (.str t) =>
+      match readNum t.toList with
+      | some tok => if wfTok tok then some (.num tok) else none
+      | none => none
+    | _ => none
   | _ => none
 
 def pairOfJson : Json → Option (String × Int)
@@ -31,7 +40,14 @@ def valOfJson : Json → Option Val
   | .obj o =>
     match (Json.obj o).getObjVal? "d" with
     | .ok (.arr ps) => (traverse pairOfJson ps.toList).map .dict
-    | _ => none
+    | _ =>
+      match (Json.obj o).getObjVal? "yn" with
+      | .ok y =>
+        match y.getObjVal? "word", y.getObjVal? "negWord" with
+        | .ok (.str w), .ok (.str nw) => some (.yesno ⟨w, some nw⟩)
+        | .ok (.str w), _ => some (.yesno ⟨w, none⟩)
+        | _, _ => none
+      | _ => (scalarOfJson (.obj o)).map .sc
   | j => (scalarOfJson j).map .sc
 
 def scalarToJson : Scalar → Json
@@ -39,11 +55,13 @@ def scalarToJson : Scalar → Json
   | .bool b => .bool b
   | .null => .null
   | .str s => .str s
+  | .num t => Json.mkObj [("f", .str (String.ofList (tokChars t)))]
 
 def valToJson : Val → Json
   | .sc s => scalarToJson s
   | .list xs => .arr (xs.map scalarToJson).toArray
   | .dict kvs => Json.mkObj [("d", .arr (kvs.map fun kv => Json.arr #[.str kv.1, .num (JsonNumber.fromInt kv.2)]).toArray)]
+  | .yesno w => Json.mkObj [("yn", Json.mkObj [("word", .str w.word), ("negWord", match w.negWord with | some nw => .str nw | none => .null)])]
 
 def optToJson {α : Type} (f : α → Json) : Option α → Json
   | some a => Json.mkObj [("some", f a)]
@@ -63,6 +81,10 @@ partial def vToJson : V → Json
     match charsOfV cs with
     | some l => .str (String.ofList l)
     | none => Json.mkObj [("bad", "str")]
+  | .tup [.atom 2, .lst cs] =>
+    match charsOfV cs with
+    | some l => Json.mkObj [("f", .str (String.ofList l))]
+    | none => Json.mkObj [("bad", "num")]
   | .tup _ => Json.mkObj [("bad", "tup")]
   | .lst xs => .arr (xs.map vToJson).toArray
   | .dct kvs => Json.mkObj [("d", .arr (kvs.map fun kv => Json.arr #[.str kv.1.name, vToJson kv.2]).toArray)]
@@ -96,12 +118,31 @@ def getD (j : Json) (k : String) : Json :=
   | .ok v => v
   | _ => .null
 
+def kindOfJson : Json → Option Kind
+  | .str "json" => some .json
+  | .str "raw" => some .raw
+  | j =>
+    match j.getObjVal? "yesno" with
+    | .ok (.str "bare") => some (.yesno .bare)
+    | .ok (.str "opt") => some (.yesno .opt)
+    | .ok (.str "one") => some (.yesno .one)
+    | _ =>
+      match j.getObjVal? "nlist" with
+      | .ok (.arr #[.str n, .bool er]) =>
+        match n with
+        | "n1" => some (.nlist .n1 er)
+        | "n2" => some (.nlist .n2 er)
+        | "plus" => some (.nlist .plus er)
+        | "star" => some (.nlist .star er)
+        | _ => none
+      | _ => none
+
 def parserOfJson (j : Json) : Option Parser := do
   let decls ← match getD j "decls" with
     | .arr ds => traverse (fun d => do
         let k ← keyOfJson (getD d "key")
-        let raw := match getD d "raw" with | .bool b => b | _ => false
-        pure (⟨k, raw⟩ : Decl)) ds.toList
+        let kind ← kindOfJson (getD d "kind")
+        pure (⟨k, kind⟩ : Decl)) ds.toList
     | _ => none
   pure ⟨clash, getStr? j "prefix", decls⟩
 
@@ -124,7 +165,7 @@ def channelOfString : String → Option Channel
   | _ => none
 
 def sourceToJson : Source → Json
-  | .argv toks => Json.mkObj [("argv", .arr (toks.map Json.str).toArray)]
+  | .argv groups => Json.mkObj [("argv", .arr (groups.map fun g => Json.arr (g.map Json.str).toArray).toArray)]
   | .cfgNested ls => Json.mkObj [("cfgNested", .arr (ls.map fun e => Json.arr #[.arr (e.1.map Json.str).toArray, .str e.2]).toArray)]
   | .cfgDotted is => Json.mkObj [("cfgDotted", .arr (is.map fun e => Json.arr #[.str e.1, .str e.2]).toArray)]
   | .objNested ls => Json.mkObj [("objNested", .arr (ls.map fun e => Json.arr #[.arr (e.1.map Json.str).toArray, valToJson e.2]).toArray)]
@@ -164,6 +205,10 @@ def step (j : Json) : Json :=
       | .bool b => Json.mkObj [("v", Json.mkObj [("some", .bool b)])]
       | .null => Json.mkObj [("v", Json.mkObj [("some", .null)])]
       | .int i => Json.mkObj [("v", Json.mkObj [("some", .num (JsonNumber.fromInt i))])]
+    | none => bad "text"
+  | some "yn" =>
+    match getStr? j "t" with
+    | some t => Json.mkObj [("v", match boolWord t.toList with | some b => .bool b | none => .null)]
     | none => bad "text"
   | some "render" =>
     match parserOfJson (getD j "parser"), settingsOfJson (getD j "settings"), (getStr? j "channel").bind channelOfString with
